@@ -18,7 +18,8 @@ Inductive dcop := DRead (off : N) | DEvict (key : N) | DReset.
    candidate was dispatched), the requested IDs (one chunk), number of repetitions *)
 Definition sstep := (N * list idsrc * N)%type.
 (* observation of a step: every repetition returned in time; the largest number of slots in use seen after a
-   repetition; errors: 0 = no repetition returned an error, 1 = every one did, 2 = some did *)
+   repetition; errors: 0 = no repetition returned an error, 1 = every one did, 2 = some did, 3 = a repetition
+   returned without error but with a document that is not the stored one *)
 Definition sobs := (bool * N * N)%type.
 
 Inductive case :=
@@ -130,7 +131,7 @@ Fixpoint slots_run (g : cfg) (fs : list cfrac) (W u : N) (steps : list sstep) : 
 (* whether a call made with a context that is already done returns an error depends on the select: not compared *)
 Definition sobs_agree (a b : N * sobs) : bool :=
   let '(k, (r1, u1, e1)) := a in let '(_, (r2, u2, e2)) := b in
-  Bool.eqb r1 r2 && (u1 =? u2) && ((k =? 1) || (k =? 2) || (e1 =? e2)).
+  Bool.eqb r1 r2 && (u1 =? u2) && negb (e2 =? 3) && ((k =? 1) || (k =? 2) || (e1 =? e2)).
 
 (* model output = implementation output *)
 Definition case_agrees (c : case) : bool :=
@@ -355,7 +356,7 @@ Definition case_spec_ok (c : case) : bool :=
       (N.of_nat (length steps) =? N.of_nat (length impl))
       && forallb (fun so : sstep * sobs =>
                     let '((k, ids, rep), (ret, used, e)) := so in
-                    ret && (used =? 0)
+                    ret && (used =? 0) && negb (e =? 3)
                     && ((k =? 1) || (k =? 2)
                         || (if e =? 0 then negb (existsb hits ids)
                             else if e =? 1 then pa || negb (is_nil dmg) else false)))
@@ -370,3 +371,5 @@ Definition D (m r n l : N) : id * body := ((m, r), (n, l)).
 Definition Q (m r h : N) : idsrc := ((m, r), h).
 Definition F (m r n l : N) : id * option body := ((m, r), Some (n, l)).
 Definition X (m r : N) : id * option body := ((m, r), None).
+Definition SS (k : N) (ids : list idsrc) (rep : N) : sstep := (k, ids, rep).
+Definition SO (r : bool) (u e : N) : sobs := (r, u, e).
